@@ -1,11 +1,22 @@
 import TinsModel.RadioTap.LemmasDecode
+import TinsModel.RadioTap.LemmasLive
+import TinsModel.RadioTap.LemmasLast
+import TinsModel.RadioTap.LemmasSafeObs
+import TinsModel.RadioTap.LemmasReport
 /- Property C11 — RadioTap fields can be set in any order and read back.
-   Theorems only (helper lemmas live in TinsModel/RadioTap/Lemmas*.lean).  The model (`writeOption`, `doFindOption`,
-   `present`, `trailerSize`, `applyWrites`, `defaultCtor`) runs on the field table generated from the source
-   (`genMeta`); the specification (`canonical`, `lastWrite`, `defaultMap`) uses the table of the radiotap standard
-   (`stdMeta`). -/
+   Theorems only (helper lemmas live in TinsModel/RadioTap/Lemmas*.lean).  The model (`mkC`, `advanceFieldC`, …,
+   `writeOption`, `doFindOption`, `present`, `trailerSize`, `applyWrites`, `defaultCtor`, `parseCtor`, `serializeHdr`)
+   runs on the field table generated from the source (`genMeta`); the specification (`canonical`, `layL`, `lastWrite`,
+   `defaultMap`) uses the table of the radiotap standard (`stdMeta`).
+
+   §1  RadioTapParser on arbitrary bytes (safety, termination, agreement with the total parser the rest is modelled on)
+   §2  setters: no fault from any state; last-write / frame theorems on canonical, well-aligned (inert frame) and
+       well-aligned (live frame) headers; the full frame statement, its refutation and the `_partial` form
+   §3  serialization: `length_covers`, `reparse_same` for every payload the parser accepts -/
 namespace Tins.Props.C11
 open Tins Tins.RT
+
+/-! ## tables -/
 
 /-- the field table generated from src/utils/radiotap_parser.cpp is the table of the radiotap standard -/
 theorem meta_matches_standard : Gen.radiotapMetadata = stdFields ∧ Gen.maxRadiotapField = 22 := by decide
@@ -15,6 +26,13 @@ theorem gen_meta_eq_std : genMeta = stdMeta := by
 
 /-- … and is well formed (positive sizes, alignments 1/2/4/8, bits below the reserved bits of the present word) -/
 theorem gen_meta_wf : genMeta.wf := by decide
+
+/-- … and only field 0 is aligned beyond 4: after any number of present words the first field above bit 0 needs no
+    padding (what makes "insert in front of the first field" land at the right offset) -/
+theorem gen_meta_lowAlign : genMeta.lowAlign := by decide
+
+theorem std_wf : stdMeta.wf := gen_meta_eq_std ▸ gen_meta_wf
+theorem std_lowAlign : stdMeta.lowAlign := gen_meta_eq_std ▸ gen_meta_lowAlign
 
 /-- every field setter of `RadioTap` (table generated from src/radiotap.cpp) writes a known field with exactly the
     field's size; every getter looks up a known field and consumes no more than its size; a getter and a setter of
@@ -26,23 +44,195 @@ theorem accessors_paired :
     (∀ s ∈ Gen.setters, ∃ g ∈ Gen.getters, g.2.1 = s.2.1 ∧ g.2.2 = s.2.2) := by
   decide
 
+theorem getter_widths :
+    ∀ g ∈ Gen.getters, g.2.2 = stdMeta.size g.2.1 ∨ (g.1 = "channel_freq" ∧ g.2.2 ≤ stdMeta.size g.2.1) := by
+  decide
+
+/-! ## §1 `Utils::RadioTapParser` on arbitrary bytes -/
+
+/-- the parser states a caller can reach on the options buffer `buf` through the public operations -/
+inductive ParserReach (buf : Bytes) : PC → Prop
+  | ctor {c} : mkC genMeta buf = .ok c → ParserReach buf c
+  | advance {c c' r} : ParserReach buf c → advanceFieldC genMeta c = .ok (c', r) → ParserReach buf c'
+  | skip {c c' r} (fuel bit : Nat) : ParserReach buf c → skipToFieldC genMeta fuel c bit = .ok (c', r) → ParserReach buf c'
+
+/-- whatever fuel a caller's `skip_to_field` loop had, the state it returned satisfies the invariant -/
+theorem skipToFieldC_ok_inv {buf : Bytes} (bit : Nat) : ∀ (fuel : Nat) (c0 c1 : PC) (r1 : Bool), ParserInv genMeta buf c0 →
+    skipToFieldC genMeta fuel c0 bit = .ok (c1, r1) → ParserInv genMeta buf c1 := by
+  intro fuel
+  induction fuel with
+  | zero => intro c0 c1 r1 _ he; simp [skipToFieldC] at he
+  | succ f ihf =>
+    intro c0 c1 r1 hi he
+    unfold skipToFieldC at he
+    split at he
+    · obtain ⟨c2, r2, he2, _, hi2⟩ := advanceFieldC_inv hi
+      rw [he2] at he
+      exact ihf c2 c1 r1 hi2 he
+    · injection he with he; injection he with e1 _
+      rw [← e1]; exact hi
+
+theorem parser_reach_inv {buf : Bytes} {c : PC} (h : ParserReach buf c) : ParserInv genMeta buf c := by
+  induction h with
+  | ctor h => exact mkC_inv h
+  | advance _ he ih =>
+    obtain ⟨c2, r2, he2, _, hi2⟩ := advanceFieldC_inv ih
+    rw [he] at he2; injection he2 with he2; injection he2 with e1 _
+    rw [e1]; exact hi2
+  | skip fuel bit _ he ih => exact skipToFieldC_ok_inv bit fuel _ _ _ ih he
+
+/-- **parser_ctor_safe** — `RadioTapParser(buffer)` on any byte string: the null parser of the empty vector,
+    `malformed_packet`, or a parser on a validated present-word chain; never a read outside the buffer (although
+    `find_options_start` is the only place that checks), and exactly the result of the total constructor `Parser.mk'`
+    on which the writer, the getters and the serializer are modelled. -/
+theorem parser_ctor_safe (buf : Bytes) :
+    ((∃ c, mkC genMeta buf = .ok c ∧ Parser.mk' genMeta buf = .ok c.p ∧ ParserInv genMeta buf c) ∨
+      (mkC genMeta buf = .throw .malformedPacket ∧ Parser.mk' genMeta buf = .throw .malformedPacket)) := by
+  rcases mkC_spec genMeta buf with ⟨_, c, h0, h1, _⟩ | h | ⟨_, c, k, h0, h1, _⟩
+  · exact Or.inl ⟨c, h0, h1, mkC_inv h0⟩
+  · exact Or.inr h
+  · exact Or.inl ⟨c, h0, h1, mkC_inv h0⟩
+
+/-- **parser_ops_safe** — in every reachable state, for every byte string: `advance_field()` returns (no fault, no
+    exception) and agrees with the total `advanceField`; `skip_to_field(f)` terminates within `walkFuel` iterations and
+    ends either without a current field or on field `f`; `current_option()` — when there is a current field — returns
+    exactly the `size` bytes at the current offset, all inside the buffer, or throws `malformed_packet` because the
+    field ends behind the buffer; `has_field(flag)` returns for every flag; the loop
+    `while (has_fields()) advance_field()` terminates. -/
+theorem parser_ops_safe (buf : Bytes) (c : PC) (hr : ParserReach buf c) :
+    (∃ c' r, advanceFieldC genMeta c = .ok (c', r) ∧ (c'.p, r) = advanceField genMeta c.p ∧ ParserReach buf c') ∧
+    (∀ bit fuel, walkFuel genMeta ≤ fuel → ∃ c', skipToFieldC genMeta fuel c bit = .ok (c', hasFields genMeta c'.p) ∧
+        (hasFields genMeta c'.p = true → c'.p.bit = bit)) ∧
+    (hasFields genMeta c.p = true →
+      (∃ d, currentOptionC genMeta c.p = .ok d ∧ d = (buf.drop c.p.ptr).take (genMeta.size c.p.bit) ∧
+          c.p.ptr + genMeta.size c.p.bit ≤ buf.length) ∨
+      (currentOptionC genMeta c.p = .throw .malformedPacket ∧ buf.length < c.p.ptr + genMeta.size c.p.bit)) ∧
+    (∀ mask, ∃ r, hasFieldC buf mask = .ok r) ∧
+    (∀ fuel, walkFuel genMeta ≤ fuel → ∃ items c', walkLoopC genMeta fuel c [] = .ok (items, c') ∧ hasFields genMeta c'.p = false) := by
+  have hi := parser_reach_inv hr
+  refine ⟨?_, ?_, currentOptionC_inv hi, hasFieldC_spec buf, ?_⟩
+  · obtain ⟨c', r, he, heq, _⟩ := advanceFieldC_inv hi
+    exact ⟨c', r, he, heq, ParserReach.advance hr he⟩
+  · intro bit fuel hf
+    obtain ⟨c', he, _, hx⟩ := skipToFieldC_inv hi bit fuel hf
+    exact ⟨c', he, hx⟩
+  · intro fuel hf
+    obtain ⟨items, c', he, _, hnf⟩ := walkLoopC_inv hi [] fuel hf
+    exact ⟨items, c', he, hnf⟩
+
+/-- the complete walk over any byte string: a list of fields or `malformed_packet` -/
+theorem parser_walk_total (buf : Bytes) :
+    (∃ items c, walkC genMeta buf = .ok (items, c)) ∨ walkC genMeta buf = .throw .malformedPacket := by
+  unfold walkC
+  rcases parser_ctor_safe buf with ⟨c, h0, _, hi⟩ | ⟨h0, _⟩
+  · rw [h0]
+    obtain ⟨items, c', he, _⟩ := walkLoopC_inv hi [] (walkFuel genMeta) (Nat.le_refl _)
+    exact Or.inl ⟨items, c', he⟩
+  · rw [h0]; exact Or.inr rfl
+
+/-- **parser_reports_sound** — the parser reports only what is there: every field the loop
+    `while (has_fields()) { …; advance_field(); }` visits, on any byte string, is a table field whose bit is set in the
+    present word of the namespace it is reported for, starts at an offset inside the buffer that is aligned counted
+    from the radiotap header, and `current_option()` there is exactly the field's `size` bytes at that offset or
+    `malformed_packet` because they end behind the buffer. -/
+theorem parser_reports_sound (buf : Bytes) (items : List WalkItem) (c : PC) (h : walkC genMeta buf = .ok (items, c)) :
+    ∀ it ∈ items, ItemSound genMeta buf it := by
+  unfold walkC at h
+  cases hm : mkC genMeta buf with
+  | ok c0 =>
+    rw [hm] at h
+    exact walkLoopC_sound gen_meta_wf _ c0 [] ⟨mkC_inv hm, mkC_pointed gen_meta_wf hm⟩ (by simp) items c h
+  | throw e => rw [hm] at h; cases h
+  | fault f => rw [hm] at h; cases h
+
+/-- `RadioTap::present()` (`namespace_flags()` / `advance_namespace()`, no bounds checks of their own) on a payload of
+    at least one present word: stays inside the buffer; equal to the total `present` -/
+theorem present_safe (buf : Bytes) (hl : 4 ≤ buf.length) :
+    presentC genMeta buf = present genMeta buf ∧
+      ((∃ w, present genMeta buf = .ok w) ∨ present genMeta buf = .throw .malformedPacket) := by
+  obtain ⟨h1, h2⟩ := presentC_spec genMeta buf hl
+  exact ⟨h1, by rw [← h1]; exact h2⟩
+
+/-! ## §2 setters -/
+
+/-- **write_option_safe** — `RadioTapWriter::write_option` on *every* options buffer (any chain of present words,
+    vendor / unknown namespaces, unknown field bits, truncation anywhere), every field bit, every value length: a new
+    buffer of at least one present word, `malformed_option` or `malformed_packet`; the `memcpy`, `vector::insert` and
+    `vector::erase` positions of `write_option` / `update_paddings` are inside the vector, the pointer differences
+    `build_padding_vector` turns into counts are not negative, and all loops end within their fuel. -/
+theorem write_option_safe (buf : Bytes) (bit : Nat) (data : Bytes) :
+    (∃ b, writeOption genMeta buf bit data = .ok b ∧ 4 ≤ b.length) ∨
+      writeOption genMeta buf bit data = .throw .malformedOption ∨
+      writeOption genMeta buf bit data = .throw .malformedPacket :=
+  writeOption_safe gen_meta_wf buf bit data
+
+/-- the `RadioTap` objects a program can hold: default-constructed, parsed from any bytes the parsing constructor
+    accepts, or obtained from such an object by `add_option` (= every typed setter) with any field and value -/
+inductive Reachable : State → Prop
+  | default {s} : defaultCtor genMeta = .ok s → Reachable s
+  | parsed {s n} (hdr : Bytes) : parseCtor genMeta hdr hdr.length = .ok (s, n) → Reachable s
+  | written {s s'} (bit : Nat) (data : Bytes) : Reachable s → addOption genMeta s bit data = .ok s' → Reachable s'
+
+theorem reachable_payload {s : State} (h : Reachable s) : 4 ≤ s.payload.length := by
+  induction h with
+  | default h =>
+    rcases applyWrites_safe gen_meta_wf defaultWrites { payload := zeros 4 } (by simp [zeros]) with ⟨s', hs', hl, _⟩ | hs' | hs'
+    · unfold defaultCtor at h; rw [h] at hs'; injection hs' with hs'; rw [hs']; exact hl
+    · unfold defaultCtor at h; rw [h] at hs'; cases hs'
+    · unfold defaultCtor at h; rw [h] at hs'; cases hs'
+  | parsed hdr h =>
+    rcases parseCtor_spec genMeta hdr hdr.length (Nat.le_refl _) with ⟨st, n, hs, hl, _⟩ | hs
+    · rw [h] at hs; injection hs with hs; injection hs with e1 _; rw [e1]; exact hl
+    · rw [h] at hs; cases hs
+  | @written s0 s1 bit data _ hw ih =>
+    unfold addOption at hw
+    rcases write_option_safe s0.payload bit data with ⟨b, hb, hl⟩ | hb | hb
+    · rw [hb] at hw; injection hw with hw; rw [← hw]; exact hl
+    · rw [hb] at hw; cases hw
+    · rw [hb] at hw; cases hw
+
+/-- **setters_never_fault** — from every reachable object (in particular every header the parsing constructor
+    accepts: multi-namespace, vendor, truncated …) every finite sequence of setter calls (any fields, any order, any
+    value lengths) ends in an object again or in `malformed_option` / `malformed_packet`; never in an access outside
+    the options vector (the region of KF-C11-3). -/
+theorem setters_never_fault (s : State) (hs : Reachable s) (ws : List (Nat × Bytes)) :
+    (∃ s', applyWrites genMeta ws s = .ok s' ∧ 4 ≤ s'.payload.length ∧ s'.version = s.version ∧ s'.pad = s.pad) ∨
+      applyWrites genMeta ws s = .throw .malformedOption ∨ applyWrites genMeta ws s = .throw .malformedPacket :=
+  applyWrites_safe gen_meta_wf ws s (reachable_payload hs)
+
+/-- **observers_never_fault** — on every reachable object every getter of `RadioTap`, `present()` and
+    `trailer_size()` return a value or throw; the getters' `memcpy` out of the option stays inside the option. -/
+theorem observers_never_fault (s : State) (hs : Reachable s) :
+    (∀ g ∈ Gen.getters, ∀ integral, (∃ d, getField genMeta s.payload g.2.1 g.2.2 integral = .ok d) ∨
+        (∃ e, getField genMeta s.payload g.2.1 g.2.2 integral = .throw e)) ∧
+    ((∃ w, present genMeta s.payload = .ok w) ∨ present genMeta s.payload = .throw .malformedPacket) ∧
+    (∀ p, Parser.mk' genMeta s.payload = .ok p → ∃ t, trailerSize genMeta s.payload = .ok t ∧ (t = 0 ∨ t = 4)) := by
+  have hl := reachable_payload hs
+  refine ⟨fun g hg integral => getField_safe genMeta s.payload g.2.1 g.2.2 integral (accessors_paired.2.1 g hg).2.2,
+    (present_safe s.payload hl).2, fun p hp => ?_⟩
+  rw [trailerSize_any (by decide) s.payload p hp hl]
+  split
+  · exact ⟨4, rfl, Or.inr rfl⟩
+  · exact ⟨0, rfl, Or.inl rfl⟩
+
+/-! ### canonical (single present word) headers -/
+
 /-- **write_canonical** — one `write_option` of a valid write on the canonical payload of a last-write map yields
     the canonical payload of the updated map (present or not, any position, any neighbours). -/
 theorem write_canonical (m : FMap) (hm : sized stdMeta m) (f : Nat) (v : Bytes) (hw : validWrite stdMeta (f, v)) :
     writeOption genMeta (canonical stdMeta m) f v = .ok (canonical stdMeta (upd m f v)) := by
   rw [gen_meta_eq_std]
-  exact writeOption_canonical (gen_meta_eq_std ▸ gen_meta_wf) hm f v hw
+  exact writeOption_canonical std_wf std_lowAlign hm f v hw
 
 /-- the default constructor produces the canonical payload of the documented default map -/
 theorem default_is_canonical :
     defaultCtor genMeta = .ok { payload := canonical stdMeta defaultMap } := by
   rw [gen_meta_eq_std]
-  have hwf : stdMeta.wf := gen_meta_eq_std ▸ gen_meta_wf
   have h0 : zeros 4 = canonical stdMeta FMap.empty := by decide
   have hv : ∀ w ∈ defaultWrites, validWrite stdMeta w := by decide
   unfold defaultCtor
   rw [h0]
-  exact applyWrites_canonical hwf defaultWrites FMap.empty 0 0 (sized_empty _) hv
+  exact applyWrites_canonical std_wf std_lowAlign defaultWrites FMap.empty 0 0 (sized_empty _) hv
 
 theorem default_sized : sized stdMeta defaultMap :=
   sized_lastWrite defaultWrites (sized_empty _) (by decide)
@@ -55,21 +245,18 @@ theorem setters_any_order (ws : List (Nat × Bytes)) (h : ∀ w ∈ ws, validWri
   rw [default_is_canonical]
   simp only [Out.bind]
   rw [gen_meta_eq_std]
-  exact applyWrites_canonical (gen_meta_eq_std ▸ gen_meta_wf) ws defaultMap 0 0 default_sized h
+  exact applyWrites_canonical std_wf std_lowAlign ws defaultMap 0 0 default_sized h
 
-/-- the same from any header whose payload is canonical (e.g. a parsed single-namespace header that `decodeCanonical`
-    accepts): version / pad untouched, payload canonical for the last-write map -/
+/-- the same from any header whose payload is canonical: version / pad untouched, payload canonical for the
+    last-write map -/
 theorem setters_any_order_from (m0 : FMap) (hm : sized stdMeta m0) (ver pad : Nat) (ws : List (Nat × Bytes))
     (h : ∀ w ∈ ws, validWrite stdMeta w) :
     applyWrites genMeta ws { version := ver, pad := pad, payload := canonical stdMeta m0 }
       = .ok { version := ver, pad := pad, payload := canonical stdMeta (lastWrite m0 ws) } := by
   rw [gen_meta_eq_std]
-  exact applyWrites_canonical (gen_meta_eq_std ▸ gen_meta_wf) ws m0 ver pad hm h
+  exact applyWrites_canonical std_wf std_lowAlign ws m0 ver pad hm h
 
-/-- histories that start from a *parsed* header: whenever the (decidable) oracle test `decodeCanonical` accepts the
-    parsed options payload `buf` with field list `fs` — a single present word, known fields only, every field at its
-    aligned offset, nothing else — `buf` is the canonical payload of the sized map `mapOfList fs`, and every finite
-    sequence of valid writes leads to the canonical payload of the last-write map over it. -/
+/-- histories that start from a *parsed* single-present-word header the (decidable) test `decodeCanonical` accepts -/
 theorem setters_any_order_parsed (buf : Bytes) (fs : List (Nat × Bytes)) (hdec : decodeCanonical stdMeta buf = some fs)
     (ver pad : Nat) (ws : List (Nat × Bytes)) (h : ∀ w ∈ ws, validWrite stdMeta w) :
     applyWrites genMeta ws { version := ver, pad := pad, payload := buf }
@@ -77,6 +264,72 @@ theorem setters_any_order_parsed (buf : Bytes) (fs : List (Nat × Bytes)) (hdec 
   obtain ⟨hm, hbuf, _⟩ := decodeCanonical_sound stdMeta buf fs hdec
   rw [hbuf]
   exact setters_any_order_from _ hm ver pad ws h
+
+/-! ### well-aligned headers with a chain of present words
+
+  `decodeLayout stdMeta buf = some (F, fs)` is the decidable predicate "`buf` is well aligned": the chain of present
+  words fits the buffer, every table field of the *first* present word lies at its aligned offset, padding bytes are
+  zero; `F` = the other bits of the first word, the later present words, and every byte behind the first word's
+  fields (`decodeLayout_sound`).  `F.inert`: the last present word announces no table field (later words empty,
+  namespace bits only, unknown fields only) — libtins' parser, which reads the fields of the first and of the last
+  present word, then never enters the foreign bytes.  Otherwise the frame is *live*: libtins reads the foreign bytes as
+  fields of the last word. -/
+
+/-- **write_layout** — one valid write on a well-aligned header with an inert frame: the header of the updated map in
+    the *same* frame (present-word chain, unknown bits, foreign bytes untouched). -/
+theorem write_layout (F : Frame) (hF : F.ok stdMeta) (hin : F.inert stdMeta) (m : FMap) (hm : sized stdMeta m)
+    (f : Nat) (v : Bytes) (hw : validWrite stdMeta (f, v)) :
+    writeOption genMeta (layL stdMeta F (fieldList stdMeta m)) f v = .ok (layL stdMeta F (fieldList stdMeta (upd m f v))) := by
+  rw [gen_meta_eq_std]
+  exact writeOption_layout std_wf std_lowAlign hF hin hm f v hw
+
+/-- **write_layout_live** — one valid write on *any* well-aligned header: the present-word chain is kept, the fields of
+    the first present word are the well-aligned layout of the updated map; only the bytes behind them may change (they
+    are re-padded as fields of the last present word), and not at all when the field was already present. -/
+theorem write_layout_live (F : Frame) (hF : F.ok stdMeta) (m : FMap) (hm : sized stdMeta m)
+    (f : Nat) (v : Bytes) (hw : validWrite stdMeta (f, v)) :
+    ∃ T', writeOption genMeta (layL stdMeta F (fieldList stdMeta m)) f v
+        = .ok (layL stdMeta { F with tail := T' } (fieldList stdMeta (upd m f v))) ∧
+      ((m f).isSome = true → T' = F.tail) := by
+  rw [gen_meta_eq_std]
+  cases hmf : m f with
+  | some old => exact ⟨F.tail, writeOption_layout_present std_wf hF hm f v old hw hmf, fun _ => rfl⟩
+  | none =>
+    obtain ⟨T', h⟩ := writeOption_layout_live std_wf std_lowAlign hF hm f v hw
+    exact ⟨T', h, fun h => by simp at h⟩
+
+/-- **setters_any_order_layout** — every finite sequence of valid writes from a well-aligned header with an inert
+    frame ends in the well-aligned header of the last-write map in the same frame. -/
+theorem setters_any_order_layout (F : Frame) (hF : F.ok stdMeta) (hin : F.inert stdMeta) (m0 : FMap) (hm : sized stdMeta m0)
+    (ver pad : Nat) (ws : List (Nat × Bytes)) (h : ∀ w ∈ ws, validWrite stdMeta w) :
+    applyWrites genMeta ws { version := ver, pad := pad, payload := layL stdMeta F (fieldList stdMeta m0) }
+      = .ok { version := ver, pad := pad, payload := layL stdMeta F (fieldList stdMeta (lastWrite m0 ws)) } := by
+  rw [gen_meta_eq_std]
+  exact applyWrites_layout std_wf std_lowAlign hF hin ws m0 ver pad hm h
+
+/-- … and from any well-aligned header at all the chain is kept and the first word's fields are those of the
+    last-write map -/
+theorem setters_any_order_live (F : Frame) (hF : F.ok stdMeta) (m0 : FMap) (hm : sized stdMeta m0)
+    (ver pad : Nat) (ws : List (Nat × Bytes)) (h : ∀ w ∈ ws, validWrite stdMeta w) :
+    ∃ T', applyWrites genMeta ws { version := ver, pad := pad, payload := layL stdMeta F (fieldList stdMeta m0) }
+      = .ok { version := ver, pad := pad, payload := layL stdMeta { F with tail := T' } (fieldList stdMeta (lastWrite m0 ws)) } := by
+  rw [gen_meta_eq_std]
+  exact applyWrites_layout_live std_wf std_lowAlign ws F m0 ver pad hF hm h
+
+/-- histories that start from a *parsed* header the decidable test `decodeLayout` accepts -/
+theorem setters_any_order_parsed_layout (buf : Bytes) (F : Frame) (fs : List (Nat × Bytes))
+    (hdec : decodeLayout stdMeta buf = some (F, fs)) (ver pad : Nat) (ws : List (Nat × Bytes))
+    (h : ∀ w ∈ ws, validWrite stdMeta w) :
+    (F.inert stdMeta → applyWrites genMeta ws { version := ver, pad := pad, payload := buf }
+      = .ok { version := ver, pad := pad, payload := layL stdMeta F (fieldList stdMeta (lastWrite (mapOfList fs) ws)) }) ∧
+    (∃ T', applyWrites genMeta ws { version := ver, pad := pad, payload := buf }
+      = .ok { version := ver, pad := pad,
+              payload := layL stdMeta { F with tail := T' } (fieldList stdMeta (lastWrite (mapOfList fs) ws)) }) := by
+  obtain ⟨hF, hm, hbuf, _⟩ := decodeLayout_sound stdMeta buf F fs hdec
+  rw [hbuf]
+  exact ⟨fun hin => setters_any_order_layout F hF hin _ hm ver pad ws h, setters_any_order_live F hF _ hm ver pad ws h⟩
+
+/-! ### getters -/
 
 /-- **getters = last write** — on the canonical payload of a map, looking a field up yields the stored value, and
     `field_not_present` for a field that was never written. -/
@@ -86,7 +339,22 @@ theorem getter_last_write (m : FMap) (hm : sized stdMeta m) (b : Nat) :
       | some v => .ok v
       | none => .throw .fieldNotPresent := by
   rw [gen_meta_eq_std]
-  exact doFindOption_canonical (gen_meta_eq_std ▸ gen_meta_wf) hm b
+  exact doFindOption_canonical std_wf hm b
+
+/-- the same on a well-aligned header with an inert frame -/
+theorem getter_last_write_layout (F : Frame) (hF : F.ok stdMeta) (hin : F.inert stdMeta) (m : FMap) (hm : sized stdMeta m) (b : Nat) :
+    doFindOption genMeta (layL stdMeta F (fieldList stdMeta m)) b =
+      match m b with
+      | some v => .ok v
+      | none => .throw .fieldNotPresent := by
+  rw [gen_meta_eq_std]
+  exact doFindOption_layout std_wf hF hin hm b
+
+/-- on any well-aligned header a field of the first present word reads back as stored -/
+theorem getter_present_layout (F : Frame) (hF : F.ok stdMeta) (m : FMap) (hm : sized stdMeta m) (b : Nat) (v : Bytes)
+    (hb : m b = some v) : doFindOption genMeta (layL stdMeta F (fieldList stdMeta m)) b = .ok v := by
+  rw [gen_meta_eq_std]
+  exact doFindOption_layout_present std_wf hF hm b v hb
 
 /-- the typed getters (`do_find_option(F).to<T>()` with `sizeof(T) = width`, or a `memcpy` of `width` bytes out of the
     option) succeed with the stored value whenever the width is the field's size (integral conversion) or at most the
@@ -112,16 +380,200 @@ theorem typed_getter_last_write (m : FMap) (hm : sized stdMeta m) (bit width : N
     · have h2 : ¬ (v.length < width) := by omega
       simp [hi, h2]
 
-theorem getter_widths :
-    ∀ g ∈ Gen.getters, g.2.2 = stdMeta.size g.2.1 ∨ (g.1 = "channel_freq" ∧ g.2.2 ≤ stdMeta.size g.2.1) := by
-  decide
+/-! ### the frame property of a setter call -/
+
+/-- what one setter call `f := v` on the well-aligned header `layL F (fields of m)` has to do: succeed; the getter of
+    `f` returns `v`; every other getter returns what it returned before; the present-word chain, the unknown bits and
+    every byte behind the fields of the first present word (later / vendor namespaces, fields without a table entry)
+    are the ones of before, the first word's fields are laid out for the updated map -/
+def SetterFrame (F : Frame) (m : FMap) (f : Nat) (v : Bytes) : Prop :=
+  ∃ buf', writeOption genMeta (layL stdMeta F (fieldList stdMeta m)) f v = .ok buf' ∧
+    doFindOption genMeta buf' f = .ok v ∧
+    (∀ g, g ≠ f → doFindOption genMeta buf' g = doFindOption genMeta (layL stdMeta F (fieldList stdMeta m)) g) ∧
+    buf' = layL stdMeta F (fieldList stdMeta (upd m f v))
+
+/-- the full statement: on every well-aligned header, whatever its later present words announce -/
+def SetterFrameAll : Prop :=
+  ∀ (F : Frame) (m : FMap) (f : Nat) (v : Bytes), F.ok stdMeta → sized stdMeta m → validWrite stdMeta (f, v) → SetterFrame F m f v
+
+/-- the witness: FLAGS in the first present word, which announces a vendor namespace; the vendor present word has
+    bit 0 set, the vendor data starts with a zero byte.  `rate(9)` inserts RATE after FLAGS and then "re-aligns" what
+    libtins takes for an 8-aligned TSFT of the last present word: the first byte of the vendor data is erased. -/
+def witnessF : Frame :=
+  { hb := 2147483648 + 1073741824, wsb := le32 1,
+    tail := [0x00, 0x11, 0x22, 0x01, 0x04, 0x00, 0xde, 0xad, 0xbe, 0xef, 0x99, 0x98, 0x97, 0x96, 0x95, 0x94] }
+
+def witnessM : FMap := fun c => if c = 1 then some [0] else none
+
+theorem witness_ok : witnessF.ok stdMeta ∧ ¬ witnessF.inert stdMeta := by decide
+
+theorem witness_sized : sized stdMeta witnessM := by
+  intro b v h
+  unfold witnessM at h
+  split at h
+  · rename_i hb
+    injection h with h
+    subst hb h
+    decide
+  · cases h
+
+/-- **setter_frame_fails** — the full statement does not hold for the code as it is (replayed on the real code by the
+    check: KF-C11-6): a write re-pads the bytes behind the first word's fields whenever the last present word has table
+    bits, also when those bytes belong to a vendor namespace. -/
+theorem setter_frame_fails : ¬ SetterFrameAll := by
+  intro h
+  obtain ⟨buf', h1, _, _, h4⟩ := h witnessF witnessM 2 [9] witness_ok.1 witness_sized (by decide)
+  have hlay : layL stdMeta witnessF (fieldList stdMeta witnessM)
+      = [2, 0, 0, 192, 1, 0, 0, 0, 0, 0, 17, 34, 1, 4, 0, 222, 173, 190, 239, 153, 152, 151, 150, 149, 148] := by decide
+  have hnew : layL stdMeta witnessF (fieldList stdMeta (upd witnessM 2 [9]))
+      = [6, 0, 0, 192, 1, 0, 0, 0, 0, 9, 0, 17, 34, 1, 4, 0, 222, 173, 190, 239, 153, 152, 151, 150, 149, 148] := by decide
+  have hrun : (match writeOption genMeta [2, 0, 0, 192, 1, 0, 0, 0, 0, 0, 17, 34, 1, 4, 0, 222, 173, 190, 239, 153, 152, 151, 150, 149, 148] 2 [9] with
+      | .ok b => b == [6, 0, 0, 192, 1, 0, 0, 0, 0, 9, 17, 34, 1, 4, 0, 222, 173, 190, 239, 153, 152, 151, 150, 149, 148]
+      | _ => false) = true := by decide
+  rw [hlay] at h1
+  rw [h1] at hrun
+  rw [hnew] at h4
+  rw [h4] at hrun
+  exact absurd hrun (by decide)
+
+/-- **setter_frame_partial** — the full statement holds on every well-aligned header whose frame is inert (single
+    present word with or without trailing foreign bytes / unknown field bits; chains whose later words are empty or
+    carry namespace or unknown bits only): excluded is exactly `¬ F.inert`, the headers on which libtins' parser
+    enters the foreign bytes. -/
+theorem setter_frame_partial (F : Frame) (m : FMap) (f : Nat) (v : Bytes) (hF : F.ok stdMeta) (hin : F.inert stdMeta)
+    (hm : sized stdMeta m) (hw : validWrite stdMeta (f, v)) : SetterFrame F m f v := by
+  have hm' : sized stdMeta (upd m f v) := sized_upd hm hw
+  refine ⟨_, write_layout F hF hin m hm f v hw, ?_, ?_, rfl⟩
+  · rw [getter_last_write_layout F hF hin _ hm' f]
+    simp [upd]
+  · intro g hg
+    rw [getter_last_write_layout F hF hin _ hm' g, getter_last_write_layout F hF hin _ hm g]
+    simp [upd, hg]
+
+/-- **setter_frame_live** — and on the excluded headers what remains true: the call succeeds, the getter of `f` returns
+    `v`, every field of the first present word keeps its value, the present-word chain is unchanged, and the first
+    word's fields are laid out for the updated map; only the bytes behind them may have been re-padded. -/
+theorem setter_frame_live (F : Frame) (m : FMap) (f : Nat) (v : Bytes) (hF : F.ok stdMeta)
+    (hm : sized stdMeta m) (hw : validWrite stdMeta (f, v)) :
+    ∃ buf' T', writeOption genMeta (layL stdMeta F (fieldList stdMeta m)) f v = .ok buf' ∧
+      buf' = layL stdMeta { F with tail := T' } (fieldList stdMeta (upd m f v)) ∧
+      doFindOption genMeta buf' f = .ok v ∧
+      (∀ g w, g ≠ f → m g = some w → doFindOption genMeta buf' g = .ok w) := by
+  have hm' : sized stdMeta (upd m f v) := sized_upd hm hw
+  obtain ⟨T', h, _⟩ := write_layout_live F hF m hm f v hw
+  refine ⟨_, T', h, rfl, ?_, ?_⟩
+  · exact getter_present_layout _ (Frame.ok_tail hF T') _ hm' f v (by simp [upd])
+  · intro g w hg hgw
+    exact getter_present_layout _ (Frame.ok_tail hF T') _ hm' g w (by simp [upd, hg, hgw])
+
+/-! ### headers whose last present word carries well-aligned table fields
+
+  `decodeLayout2 stdMeta buf = some (F, fs0, fsK, rest)`: `buf` is well aligned, its first present word has table
+  fields `fs0` (at least one), and the bytes behind them are the fields `fsK` the last present word announces, zero
+  padded at their aligned offsets, followed by `rest` (`decodeLayout2_sound`).  With two present words and bit 29 in
+  the first this is a header with two radiotap namespaces as the standard lays it out (e.g. the capture in libtins'
+  own test suite). -/
+
+/-- **write_two_words** — one valid write on such a header: the first word's fields follow the updated map, the last
+    word's fields keep their values at re-aligned offsets, the chain and the bytes behind are untouched. -/
+theorem write_two_words (F : Frame) (hF : F.ok stdMeta) (m0 : FMap) (hm : sized stdMeta m0) (hne : fieldList stdMeta m0 ≠ [])
+    (fsK : List (Nat × Bytes)) (rest : Bytes) (hL : LastWord stdMeta F fsK) (f : Nat) (v : Bytes) (hw : validWrite stdMeta (f, v)) :
+    writeOption genMeta (lay2 stdMeta F (fieldList stdMeta m0) fsK rest) f v
+      = .ok (lay2 stdMeta F (fieldList stdMeta (upd m0 f v)) fsK rest) := by
+  rw [gen_meta_eq_std]
+  exact writeOption_lay2 std_wf std_lowAlign hF hm hne fsK rest hL f v hw
+
+/-- **getter_two_words** — every getter on such a header returns the first word's value, else the last word's, else
+    `field_not_present`. -/
+theorem getter_two_words (F : Frame) (hF : F.ok stdMeta) (m0 mK : FMap) (hm0 : sized stdMeta m0) (hmK : sized stdMeta mK)
+    (hne : fieldList stdMeta m0 ≠ []) (rest : Bytes) (hL : LastWord stdMeta F (fieldList stdMeta mK)) (g : Nat) :
+    doFindOption genMeta (lay2 stdMeta F (fieldList stdMeta m0) (fieldList stdMeta mK) rest) g =
+      match m0 g with
+      | some v => .ok v
+      | none => match mK g with
+        | some v => .ok v
+        | none => .throw .fieldNotPresent := by
+  rw [gen_meta_eq_std]
+  exact doFindOption_lay2 std_wf hF hm0 hmK hne rest hL g
+
+/-- **setters_two_words** — histories from a parsed header the decidable test `decodeLayout2` accepts: after any finite
+    sequence of valid writes the payload is the two-word layout of the last-write map over the first word's fields
+    with the last word's fields and the rest unchanged; every field reads back as last written, untouched fields of
+    both words keep their values. -/
+theorem setters_two_words (buf : Bytes) (F : Frame) (fs0 fsK : List (Nat × Bytes)) (rest : Bytes)
+    (hdec : decodeLayout2 stdMeta buf = some (F, fs0, fsK, rest)) (ver pad : Nat) (ws : List (Nat × Bytes))
+    (h : ∀ w ∈ ws, validWrite stdMeta w) :
+    applyWrites genMeta ws { version := ver, pad := pad, payload := buf }
+      = .ok { version := ver, pad := pad,
+              payload := lay2 stdMeta F (fieldList stdMeta (lastWrite (mapOfList fs0) ws)) fsK rest } ∧
+    ∀ g, doFindOption genMeta (lay2 stdMeta F (fieldList stdMeta (lastWrite (mapOfList fs0) ws)) fsK rest) g =
+      match lastWrite (mapOfList fs0) ws g with
+      | some v => .ok v
+      | none => match mapOfList fsK g with
+        | some v => .ok v
+        | none => .throw .fieldNotPresent := by
+  obtain ⟨hF, hm0, hfl0, hne0, hmK, hflK, hL, hbuf⟩ := decodeLayout2_sound stdMeta buf F fs0 fsK rest hdec
+  have hne0' : fieldList stdMeta (mapOfList fs0) ≠ [] := by rw [hfl0]; exact hne0
+  constructor
+  · rw [hbuf, gen_meta_eq_std]
+    have := applyWrites_lay2 std_wf std_lowAlign hF fsK rest hL ws (mapOfList fs0) ver pad hm0 hne0' h
+    rw [hfl0] at this
+    exact this
+  · intro g
+    have hms := sized_lastWrite ws hm0 h
+    have hne' : fieldList stdMeta (lastWrite (mapOfList fs0) ws) ≠ [] := by
+      -- a write never removes a field: the domain only grows
+      intro hnil
+      have hdom : ∀ c, c < stdMeta.max → (lastWrite (mapOfList fs0) ws c).isSome = false := by
+        intro c hc
+        have := testBit_present_map stdMeta (lastWrite (mapOfList fs0) ws) c hc
+        rw [hnil] at this
+        simpa [presentWord] using this.symm
+      have hgrow : ∀ (ws : List (Nat × Bytes)) (m : FMap) (c : Nat), (m c).isSome = true → (lastWrite m ws c).isSome = true := by
+        intro ws
+        induction ws with
+        | nil => intro m c hc; exact hc
+        | cons w r ih =>
+          intro m c hc
+          simp only [lastWrite, List.foldl_cons]
+          apply ih
+          unfold upd
+          split
+          · rfl
+          · exact hc
+      cases hfs : fs0 with
+      | nil => exact hne0 hfs
+      | cons x r =>
+        have hx : x ∈ fieldList stdMeta (mapOfList fs0) := by rw [hfl0, hfs]; exact List.mem_cons_self ..
+        have hmem := fieldsFrom_mem hx
+        have h1 := hgrow ws (mapOfList fs0) x.1 (by rw [hmem.2.2]; rfl)
+        have hlt : x.1 < stdMeta.max := (hm0 x.1 x.2 hmem.2.2).1
+        rw [hdom x.1 hlt] at h1
+        cases h1
+    have := getter_two_words F hF (lastWrite (mapOfList fs0) ws) (mapOfList fsK) hms hmK hne' rest (by rw [hflK]; exact hL) g
+    rw [hflK] at this
+    exact this
+
+/-! ### present(), trailer_size() -/
 
 /-- **present = domain** — `present()` is the OR of the flags of exactly the written fields. -/
 theorem present_is_domain (m : FMap) (hm : sized stdMeta m) :
     present genMeta (canonical stdMeta m) = .ok (presentWord (fieldList stdMeta m)) ∧
     ∀ c, c < stdMeta.max → (presentWord (fieldList stdMeta m)).testBit c = (m c).isSome := by
   rw [gen_meta_eq_std]
-  exact ⟨present_canonical (gen_meta_eq_std ▸ gen_meta_wf) hm, fun c hc => testBit_present_map stdMeta m c hc⟩
+  exact ⟨present_canonical std_wf hm, fun c hc => testBit_present_map stdMeta m c hc⟩
+
+/-- on a well-aligned header `present()` is the first present word ORed with the last one; with an inert frame its table
+    bits are exactly the domain of the map -/
+theorem present_layout_domain (F : Frame) (hF : F.ok stdMeta) (m : FMap) (hm : sized stdMeta m) :
+    ∃ w, present genMeta (layL stdMeta F (fieldList stdMeta m)) = .ok w ∧
+      (F.inert stdMeta → ∀ c, c < stdMeta.max → w.testBit c = (m c).isSome) := by
+  rw [gen_meta_eq_std]
+  refine ⟨_, present_layout std_wf hF (fieldList_sorted _ m) (fieldList_sized hm), fun hin c hc => ?_⟩
+  rw [Nat.testBit_or, W_testBit hF _ c hc, testBit_present_map stdMeta m c hc]
+  by_cases hk : 0 < F.k
+  · simp [hk, hin hk c hc]
+  · simp [hk]
 
 /-- `trailer_size()` is 4 exactly when the FLAGS field was written with the FCS bit -/
 theorem trailer_size_spec (m : FMap) (hm : sized stdMeta m) :
@@ -130,7 +582,7 @@ theorem trailer_size_spec (m : FMap) (hm : sized stdMeta m) :
            | some v => if byteAt v 0 / 16 % 2 == 1 then 4 else 0
            | none => 0) := by
   rw [gen_meta_eq_std]
-  exact trailerSize_canonical (gen_meta_eq_std ▸ gen_meta_wf) (by decide) hm
+  exact trailerSize_canonical std_wf (by decide) hm
 
 /-- the whole property for histories from the default header: after any sequence of valid writes the payload is
     canonical for the last-write map `L`, every lookup returns `L`'s value or `field_not_present`, and `present()`
@@ -146,13 +598,75 @@ theorem history_observations (ws : List (Nat × Bytes)) (h : ∀ w ∈ ws, valid
   have hs := sized_lastWrite ws default_sized h
   exact ⟨_, setters_any_order ws h, rfl, fun b => getter_last_write _ hs b, (present_is_domain _ hs).1⟩
 
-/-- **length_covers / reparse_same** — serialising a header whose payload is canonical for `m` (with an inner frame
-    of `innerLen` bytes) writes the 4-byte fixed header followed by exactly the canonical payload, the length field
-    covers exactly those bytes, the trailer is 4 bytes iff FCS is flagged, and the parsing constructor applied to the
-    result yields the same version / pad / payload (hence, by `getter_last_write`, the same field values) and hands
-    exactly the inner frame's `innerLen` bytes to the 802.11 parser.  Hypotheses: the header fits the 16-bit length
-    field, at least 4 bytes follow the header (libtins refuses shorter packets), and the frame is not flagged
-    FCS + FAILED_FCS (libtins refuses to parse those by design). -/
+/-! ## §3 serialization -/
+
+/-- **length_covers** — whatever the object holds: when `serialize()` succeeds, the bytes this layer writes are the 4
+    fixed bytes (version, pad, length) followed by exactly the options payload; the length field is the size of those
+    bytes (mod 2^16, the width of `it_len`); the total is header + inner frame + trailer; the trailer is 0 or 4 bytes. -/
+theorem length_covers (s : State) (innerLen n tr : Nat) (hdr : Bytes) (hv : s.version < 256) (hp : s.pad < 256)
+    (h : serializeHdr genMeta s innerLen = .ok (n, hdr, tr)) :
+    hdr.length = 4 + s.payload.length ∧
+    byteAt hdr 2 + 256 * byteAt hdr 3 = hdr.length % 65536 ∧
+    byteAt hdr 0 = s.version ∧ byteAt hdr 1 = s.pad ∧
+    hdr.drop 4 = s.payload ∧
+    n = hdr.length + tr + innerLen ∧
+    trailerSize genMeta s.payload = .ok tr := by
+  unfold serializeHdr at h
+  cases ht : trailerSize genMeta s.payload with
+  | ok t =>
+    simp only [ht] at h
+    injection h with h
+    injection h with h1 h2
+    injection h2 with h2 h3
+    subst h1 h2 h3
+    refine ⟨by simp; omega, ?_, ?_, ?_, by simp, by simp; omega, rfl⟩
+    · simp [byteAt]; omega
+    · simp [byteAt]; omega
+    · simp [byteAt]; omega
+  | throw e => simp [ht] at h
+  | fault f => simp [ht] at h
+
+/-- **reparse_same** — for *every* options payload the parser's constructor accepts (every parsed header, every header
+    reached by setters from one): serialization succeeds, and the parsing constructor applied to the serialized bytes
+    yields the same version, pad and payload — hence the same result of every getter, which are functions of the
+    payload — and hands exactly the inner frame's `innerLen` bytes to the 802.11 parser.  Hypotheses: the header fits
+    the 16-bit length field, at least 4 bytes follow the header (libtins refuses shorter packets), and the frame is
+    not flagged FCS + FAILED_FCS (libtins refuses to parse those by design); `flagsByte` = the FLAGS byte the parser
+    reaches in the payload. -/
+theorem serialize_reparse_any (payload : Bytes) (p : Parser) (hmk : Parser.mk' genMeta payload = .ok p)
+    (h4 : 4 ≤ payload.length) (ver pad innerLen : Nat) (hver : ver < 256) (hpad : pad < 256)
+    (hlen : 4 + payload.length < 65536)
+    (hinner : 4 ≤ innerLen + (if fcsOf (flagsByte genMeta payload) then 4 else 0))
+    (hok : ¬ (fcsOf (flagsByte genMeta payload) = true ∧ badFcsOf (flagsByte genMeta payload) = true)) :
+    ∃ hdr tr, serializeHdr genMeta { version := ver, pad := pad, payload := payload } innerLen
+        = .ok (4 + payload.length + tr + innerLen, hdr, tr) ∧
+      tr = (if fcsOf (flagsByte genMeta payload) then 4 else 0) ∧
+      hdr.length = 4 + payload.length ∧
+      byteAt hdr 2 + 256 * byteAt hdr 3 = hdr.length ∧
+      hdr.drop 4 = payload ∧
+      parseCtor genMeta hdr (4 + payload.length + tr + innerLen)
+        = .ok ({ version := ver, pad := pad, payload := payload }, innerLen) := by
+  have htr := trailerSize_any (M := genMeta) (by decide) payload p hmk h4
+  refine ⟨_, _, ?_, rfl, ?_, ?_, ?_, parseCtor_serialized_any payload p hmk h4 ver pad innerLen hver hpad hlen hinner hok⟩
+  · simp only [serializeHdr, htr]
+  · simp; omega
+  · simp [byteAt]; omega
+  · simp
+
+/-- every well-aligned header (any frame) is accepted by the parser's constructor, so `serialize_reparse_any` applies
+    to every parsed well-aligned header and to every header reached from one by valid writes
+    (`setters_any_order_live`) — and to the default header and everything reached from it (`setters_any_order`) -/
+theorem wellaligned_accepted (F : Frame) (hF : F.ok stdMeta) (m : FMap) (hm : sized stdMeta m) :
+    ∃ p, Parser.mk' genMeta (layL stdMeta F (fieldList stdMeta m)) = .ok p ∧ 4 ≤ (layL stdMeta F (fieldList stdMeta m)).length := by
+  rw [gen_meta_eq_std]
+  obtain ⟨p, hp, _⟩ := mk_layL std_wf hF (fieldList_sorted stdMeta m) (fieldList_sized hm)
+  exact ⟨p, hp, by rw [layL_length]; omega⟩
+
+/-- **serialize_reparse** — the canonical case spelled out on the map: serialising a header whose payload is canonical
+    for `m` (with an inner frame of `innerLen` bytes) writes the 4-byte fixed header followed by exactly the canonical
+    payload, the length field covers exactly those bytes, the trailer is 4 bytes iff FCS is flagged, and the parsing
+    constructor applied to the result yields the same version / pad / payload and hands exactly the inner frame's
+    `innerLen` bytes to the 802.11 parser. -/
 theorem serialize_reparse (m : FMap) (hm : sized stdMeta m) (ver pad innerLen : Nat) (hver : ver < 256) (hpad : pad < 256)
     (hlen : 4 + (canonical stdMeta m).length < 65536)
     (hinner : 4 ≤ innerLen + (if fcsOn m then 4 else 0))
@@ -165,15 +679,40 @@ theorem serialize_reparse (m : FMap) (hm : sized stdMeta m) (ver pad innerLen : 
       parseCtor genMeta hdr (4 + (canonical stdMeta m).length + (if fcsOn m then 4 else 0) + innerLen)
         = .ok ({ version := ver, pad := pad, payload := canonical stdMeta m }, innerLen) := by
   rw [gen_meta_eq_std]
-  have hwf : stdMeta.wf := gen_meta_eq_std ▸ gen_meta_wf
   have hfl : stdMeta.size 1 = 1 := by decide
-  refine ⟨_, ?_, ?_, ?_, ?_, parseCtor_serialized hwf hfl hm ver pad innerLen hver hpad hlen hinner hok⟩
-  · simp only [serializeHdr, trailerSize_eq hwf hfl hm]
+  refine ⟨_, ?_, ?_, ?_, ?_, parseCtor_serialized std_wf hfl hm ver pad innerLen hver hpad hlen hinner hok⟩
+  · simp only [serializeHdr, trailerSize_eq std_wf hfl hm]
   · simp; omega
   · simp [byteAt]; omega
   · simp
 
-/-! non-vacuity: a history that inserts below, between and above existing fields and overwrites one -/
+/-- … and on a well-aligned header with an inert frame -/
+theorem serialize_reparse_layout (F : Frame) (hF : F.ok stdMeta) (hin : F.inert stdMeta) (m : FMap) (hm : sized stdMeta m)
+    (ver pad innerLen : Nat) (hver : ver < 256) (hpad : pad < 256)
+    (hlen : 4 + (layL stdMeta F (fieldList stdMeta m)).length < 65536)
+    (hinner : 4 ≤ innerLen + (if fcsOn m then 4 else 0))
+    (hok : ¬ (fcsOn m = true ∧ badFcs m = true)) :
+    ∃ hdr, serializeHdr genMeta { version := ver, pad := pad, payload := layL stdMeta F (fieldList stdMeta m) } innerLen
+        = .ok (4 + (layL stdMeta F (fieldList stdMeta m)).length + (if fcsOn m then 4 else 0) + innerLen, hdr,
+               if fcsOn m then 4 else 0) ∧
+      hdr.drop 4 = layL stdMeta F (fieldList stdMeta m) ∧
+      byteAt hdr 2 + 256 * byteAt hdr 3 = 4 + (layL stdMeta F (fieldList stdMeta m)).length ∧
+      parseCtor genMeta hdr (4 + (layL stdMeta F (fieldList stdMeta m)).length + (if fcsOn m then 4 else 0) + innerLen)
+        = .ok ({ version := ver, pad := pad, payload := layL stdMeta F (fieldList stdMeta m) }, innerLen) := by
+  rw [gen_meta_eq_std]
+  have hfl : stdMeta.size 1 = 1 := by decide
+  have htr : trailerSize stdMeta (layL stdMeta F (fieldList stdMeta m)) = .ok (if fcsOn m then 4 else 0) := by
+    rw [trailerSize_layout std_wf hfl hF hin hm]
+    unfold fcsOn
+    cases m 1 <;> simp
+  refine ⟨_, ?_, ?_, ?_, parseCtor_serialized_layout std_wf hF hin hm ver pad innerLen hver hpad hlen hinner hok⟩
+  · simp only [serializeHdr, htr]
+  · simp
+  · simp [byteAt]; omega
+
+/-! ## non-vacuity -/
+
+/-- a history that inserts below, between and above existing fields and overwrites one -/
 example : ∀ w ∈ [((18 : Nat), ([1, 2, 3, 4, 5, 6, 7, 8] : Bytes)), (2, [7]), (15, [1, 0]), (17, [5]), (2, [9])],
     validWrite stdMeta w := by decide
 
@@ -184,5 +723,49 @@ example : (lastWrite defaultMap [(2, [7]), (2, [9])]) 2 = some [9] := by decide
 example : decodeCanonical stdMeta (canonical stdMeta defaultMap) = some (fieldList stdMeta defaultMap) := by decide
 
 example : fcsOn defaultMap = true ∧ badFcs defaultMap = false ∧ 4 + (canonical stdMeta defaultMap).length = 26 := by decide
+
+/-- a well-aligned header with three present words (radiotap-namespace bit, an empty middle word, a last word with
+    unknown bits only), an 8-aligned TSFT that needs 4 bytes of padding behind the chain, and foreign bytes: accepted
+    by `decodeLayout`, frame ok and inert -/
+def exampleF : Frame :=
+  { hb := 2147483648 + 536870912, wsb := le32 2147483648 ++ le32 4194304, tail := [0xaa, 0xbb, 0xcc] }
+
+def exampleM : FMap := fun c => if c = 0 then some [1, 2, 3, 4, 5, 6, 7, 8] else if c = 1 then some [0x10] else none
+
+example : exampleF.ok stdMeta ∧ exampleF.inert stdMeta := by decide
+
+example : decodeLayout stdMeta (layL stdMeta exampleF (fieldList stdMeta exampleM)) = some (exampleF, fieldList stdMeta exampleM) := by
+  decide
+
+/-- the two-namespace capture of libtins' own test suite (`expected_packet4`: TSFT, FLAGS, CHANNEL, DBM_SIGNAL,
+    RX_FLAGS, MCS in the first word, DBM_SIGNAL and ANTENNA in the second) is accepted by `decodeLayout2` -/
+example : (decodeLayout2 stdMeta [0x2b, 0x40, 0x08, 0xa0, 0x20, 0x08, 0, 0, 0, 0, 0, 0, 0xde, 0x18, 0x7a, 0x5c, 0xe3, 1, 0, 0, 0x10, 0,
+    0x6c, 0x09, 0x80, 0x04, 0xba, 0, 0, 0, 0x27, 0, 1, 0xba, 0]).map (fun r => (r.2.1.map (·.1), r.2.2.1.map (·.1), r.2.2.2))
+    = some ([0, 1, 3, 5, 14, 19], [5, 11], []) := by
+  decide
+
+/-- the refutation witness is a well-aligned header the decidable test accepts, with a live frame -/
+example : decodeLayout stdMeta (layL stdMeta witnessF (fieldList stdMeta witnessM)) = some (witnessF, fieldList stdMeta witnessM) := by
+  decide
+
+/-- parser states are reachable on a broken input as well: a chain whose second word is cut off is refused, a header
+    with a field that ends behind the buffer is accepted and walked -/
+example : mkC genMeta [0, 0, 0, 0x80, 1, 0] = .throw .malformedPacket := by rfl
+
+example : ∃ c, mkC genMeta [1, 0, 0, 0, 1, 2, 3, 4, 5] = .ok c ∧ hasFields genMeta c.p = true := ⟨_, rfl, by decide⟩
+
+/-- the walk over the two-word test header of libtins' own suite reports eight fields, two of them from the second word -/
+example : (match walkC genMeta [0x2b, 0x40, 0x08, 0xa0, 0x20, 0x08, 0, 0, 0, 0, 0, 0, 0xde, 0x18, 0x7a, 0x5c, 0xe3, 1, 0, 0, 0x10, 0,
+    0x6c, 0x09, 0x80, 0x04, 0xba, 0, 0, 0, 0x27, 0, 1, 0xba, 0] with
+    | .ok (items, _) => items.map (fun it => (it.ns, it.bit, it.ptr))
+    | _ => []) = [(0, 0, 12), (0, 1, 20), (0, 3, 22), (0, 5, 26), (0, 14, 28), (0, 19, 30), (1, 5, 33), (1, 11, 34)] := by
+  decide
+
+/-- objects are reachable, and accepted payloads exist for the any-payload serialization theorem (a live frame here) -/
+example : Reachable { payload := canonical stdMeta defaultMap } := Reachable.default default_is_canonical
+
+example : ∃ p, Parser.mk' genMeta (layL stdMeta witnessF (fieldList stdMeta witnessM)) = .ok p ∧
+    4 ≤ (layL stdMeta witnessF (fieldList stdMeta witnessM)).length :=
+  wellaligned_accepted witnessF witness_ok.1 witnessM witness_sized
 
 end Tins.Props.C11
